@@ -145,6 +145,7 @@ def prove_case(hid, case, timeout_ms, common_impl="py", exclude_regions=(), max_
         E = Engine(loader, timeout_ms=timeout_ms)
         E.contracts = build_contracts(loader, h)
         E.backend = h.backend
+        E.uf_axioms = h.uf_axioms
         E.contract_uses = {}
         region_fvs = [mod.globals[r] for r in exclude_regions]
 
